@@ -47,14 +47,15 @@ ASSUMPTIONS = [
 REQUIRED = ["histories", "operations", "open_log_checks", "index_ops", "negative_index_ops",
             "slice_ops", "iterate_ops", "out_of_range_ops", "chain_elements_checked",
             "chain_negative_indices", "chain_empty_members", "populations_rows_checked",
-            "to_population_checked", "map_checked", "transform_checked", "tap_load",
+            "to_population_checked", "map_checked", "map_verbose_checked", "large_populations",
+            "transform_checked", "tap_load",
             "audit_file_opens"]
 FLOOR = {"quick": 250, "thorough": 5000}
 SHARDS = {"quick": 8, "thorough": 16}
 TIMEOUT = {"quick": 300, "thorough": 3000}
 
 
-def make_layout(rng, root, *, nfiles=None, marker_base=0):
+def make_layout(rng, root, *, nfiles=None, marker_base=0, small=False):
     """Write a directory tree of swc files; returns {relative path: (n_nodes, marker)}."""
     os.makedirs(root, exist_ok=True)
     k = int(rng.integers(0, 26)) if nfiles is None else nfiles
@@ -66,7 +67,7 @@ def make_layout(rng, root, *, nfiles=None, marker_base=0):
     for i in range(k):
         d = dirs[int(rng.integers(0, len(dirs)))] if rng.random() < 0.6 else ""
         rel = os.path.join(d, f"cell{i:02d}.swc")
-        n = 2 + i
+        n = 2 + (i if not small else i % 7)
         marker = float(marker_base + i)
         p = os.path.join(root, rel)
         os.makedirs(os.path.dirname(p), exist_ok=True)
@@ -110,7 +111,12 @@ def check_history(ctx, case, tmp):
 
     rng = np.random.default_rng(case["seed"])
     root = os.path.join(tmp, "pop")
-    files = make_layout(rng, root)
+    if case.get("large"):
+        # more files than any plausible bounded cache: a second pass must still read nothing
+        files = make_layout(rng, root, nfiles=int(rng.integers(140, 200)), small=True)
+        ctx.count("large_populations")
+    else:
+        files = make_layout(rng, root)
     ctx.count("histories")
     audit.start(tmp)
     log = OpenLog(root)
@@ -156,6 +162,8 @@ def check_history(ctx, case, tmp):
     for step in range(case["nops"]):
         ctx.count("operations")
         u = rng.random()
+        if case.get("large"):
+            u = 0.75 if step % 2 == 0 else rng.random() * 0.5  # full passes, then point reads
         with warnings.catch_warnings():
             warnings.simplefilter("ignore")
             if u < 0.35 and n:
@@ -389,22 +397,40 @@ def _count_nodes(t):  # top level: must be picklable for the process pool
     return (t.number_of_nodes(), float(t.x()[0]))
 
 
+def _count_nodes_slow_first(t):
+    """Like _count_nodes, but the tree whose marker is in RV_SLOW_MARKER takes much longer, so
+    results *complete* out of submission order whenever two workers run."""
+    import time
+
+    if float(t.x()[0]) == float(os.environ.get("RV_SLOW_MARKER", "nan")):
+        time.sleep(0.7)
+    return (t.number_of_nodes(), float(t.x()[0]))
+
+
 def check_map(ctx, case, tmp):
     from swcgeom.core import Population
 
     rng = np.random.default_rng(case["seed"])
     root = os.path.join(tmp, "pop")
-    files = make_layout(rng, root, nfiles=int(rng.integers(1, 8)))
+    files = make_layout(rng, root, nfiles=int(rng.integers(2, 8)))
     with warnings.catch_warnings():
         warnings.simplefilter("ignore")
         pop = Population.from_swc(root)
         listing = [os.path.relpath(p, root) for p in Population.find_swcs(root)]
-        res = list(pop.map(_count_nodes, max_worker=2))
+        want = [files[r] for r in listing]
+        verbose = bool(case.get("verbose"))
+        os.environ["RV_SLOW_MARKER"] = repr(float(want[0][1]))
+        try:
+            res = list(pop.map(_count_nodes_slow_first if len(want) > 1 else _count_nodes,
+                               max_worker=2, verbose=verbose))
+        finally:
+            os.environ.pop("RV_SLOW_MARKER", None)
     ctx.count("map_checked")
-    want = [files[r] for r in listing]
+    if verbose:
+        ctx.count("map_verbose_checked")
     if [tuple(r) for r in res] != [tuple(w) for w in want]:
-        return ctx.violation("map-wrong", f"map returned {res}, one result per tree in order is "
-                                          f"{want}", case)
+        return ctx.violation("map-wrong", f"map(verbose={verbose}) returned {res}, one result per "
+                                          f"tree in order is {want}", case)
 
 
 def check_transform(ctx, case, tmp):
@@ -472,9 +498,14 @@ def run(ctx):
                 case = {"kind": "transform", "seed": seed}
             ctx.case(case, klass=case["kind"])
             execute(ctx, case)
-        for _ in range(2 if ctx.quick else 6):
-            case = {"kind": "map", "seed": int(rng.integers(0, 2**31 - 1))}
+        for j in range(2 if ctx.quick else 6):
+            case = {"kind": "map", "seed": int(rng.integers(0, 2**31 - 1)), "verbose": bool(j % 2)}
             ctx.case(case, klass="map")
+            execute(ctx, case)
+        for _ in range(1 if ctx.quick else 4):
+            case = {"kind": "history", "seed": int(rng.integers(0, 2**31 - 1)), "nops": 6,
+                    "large": True}
+            ctx.case(case, klass="history-large")
             execute(ctx, case)
     ctx.count("tap_load", tap.counts["load"])
 
